@@ -84,7 +84,7 @@ def run_case(ci):
     data = read(d + "/out", "rb")
     exp = expected_match(val)
     if set(sub) != exp and sname in ("exact-list", "with-std"):
-        log("internal: expectation mismatch", sub, exp)
+        log("note: the pattern list", sub, "also selects sub-packages by prefix; reference selection is", sorted(exp))
     for k in keys:
         mk_ = markers(k)
         if k in exp:
